@@ -122,14 +122,18 @@ impl WalRecuperator {
         }
 
         // Try to deserialize as CreateTableInstr first
-        if let Ok(create_table_instr) = CreateTableInstr::from_bytes(redo_bytes) {
+        // Redo must be repeatable: the object may already be in the data file when the crash
+        // happened after its pages were written back (eviction, checkpoint in progress).
+        if let Ok(mut create_table_instr) = CreateTableInstr::from_bytes(redo_bytes) {
+            create_table_instr.if_not_exists = true;
             let instr = DdlInstruction::CreateTable(create_table_instr);
             self.ddl_executor.execute_instruction(&instr)?;
             return Ok(());
         }
 
         // Try CreateIndexInstr
-        if let Ok(create_index_instr) = CreateIndexInstr::from_bytes(redo_bytes) {
+        if let Ok(mut create_index_instr) = CreateIndexInstr::from_bytes(redo_bytes) {
+            create_index_instr.if_not_exists = true;
             let instr = DdlInstruction::CreateIndex(create_index_instr);
             self.ddl_executor.execute_instruction(&instr)?;
             return Ok(());
